@@ -134,7 +134,12 @@ def triggers_of(program: dict, facts: dict[str, dict]) -> dict[str, list[str]]:
         ops = f.get("ops", set())
         aggwin = bool(ops & (AGG_OPS | WIN_OPS))
         if op == "filter" and f.get("win_in_scope"):
-            hit("D1", sid)
+            # (with an alias() between the window function and the filter the subquery is inserted there and the filter is
+            #  correct: D1 is about the filter that lands in the window's own SELECT)
+            verbs_ = f.get("chain", {}).get("verbs", [])
+            last_def = max([i for i, v_ in enumerate(verbs_) if v_ in ("mutate", "summarize")], default=-1)
+            if "alias" not in verbs_[last_def + 1:]:
+                hit("D1", sid)
         if op == "mutate" and aggwin and f.get("limit") is not None:
             hit("D2", sid)
         if f.get("chain", {}).get("sliced0") and op in ("filter", "summarize", "arrange", "group_by", "join", "union", "mutate"):
